@@ -59,6 +59,7 @@ type Config struct {
 	MaxSteps   int     // hard budget of scheduling steps (context switches + yields)
 	SpinLimit  int     // fair phase: steps without progress (NoteProgress) that count as a livelock (0: 30000)
 	TimeJump   float64 // probability per park that time jumps to the next timer although goroutines are runnable
+	TimeJumpMax time.Duration // such a jump happens only if the next timer is at most this far away (0: any distance)
 	SiteProb   float64 // fraction of function-entry yield sites that are active
 	Trace      bool    // keep a textual event log
 	TraceLimit int
@@ -867,8 +868,10 @@ func (s *Sched) loop(root func()) {
 		}
 		norm, idle := s.runnable()
 		if len(norm) > 0 && !s.fair && s.cfg.TimeJump > 0 && s.rng.float() < s.cfg.TimeJump {
-			if s.advance() {
-				continue
+			if nt := s.nextTimer(); nt != nil && (s.cfg.TimeJumpMax <= 0 || time.Until(nt.when) <= s.cfg.TimeJumpMax) {
+				if s.advance() {
+					continue
+				}
 			}
 		}
 		var g *G
